@@ -3,3 +3,4 @@ import DracoProps.C16
 import DracoProps.C07
 import DracoProps.C04
 import DracoProps.C12
+import DracoProps.C13
